@@ -34,6 +34,7 @@ func runC06(e *Env) {
 	ruleC06Build(e, "C06.build")
 	ruleC06Entry(e, "C06.entry")
 	ruleSuffix(e, "C06.numorder")
+	e.S.Floor("C06.numorder", 7)
 	ruleLatest(e, "C06.latest")
 	ruleC06Scan(e, "C06.scan")
 	e.S.Floor("C06.scan", 3)
@@ -46,7 +47,7 @@ func runC06(e *Env) {
 	e.S.Floor("C06.lang", 2)
 	e.S.Floor("C06.latest", 3)
 	e.S.Floor("C06.core", 28)
-	e.S.Floor("C06.empty", 3)
+	e.S.Floor("C06.empty", 6)
 	e.S.Floor("C06.build", 1)
 	e.S.Floor("C06.entry", 30)
 	dcp := e.Fn("C06.sep", "sem", "DefaultComparePreRelease")
@@ -168,6 +169,9 @@ func preReleaseTable(e *Env, rule string) map[string]string {
 		}
 		name := names[o]
 		sums[callee.String()] = func(ev *pred.Evaluator, args []pred.Val) (pred.Val, error) {
+			if o.Name() == "comparePreRelease" {
+				args = e.Unpermuted("sem", "comparePreRelease", o, args) // the recorded order (shorter, longer), whatever the present one
+			}
 			return pred.Term{Fn: name, Args: args}, nil
 		}
 	}
@@ -225,6 +229,36 @@ func ruleC06Empty(e *Env, rule string) {
 			e.S.Ok(rule, site, c.name, "result "+c.want+" (a release ranks above any pre-release)", "")
 		} else {
 			e.S.Bad(rule, site, c.name, fmt.Sprintf("result %s, SemVer §11 demands %s", t[c.key], c.want), "", "")
+		}
+	}
+	// two non-empty pre-releases: the scan gets (shorter, longer) and answers in the convention cmp(longer, shorter) that
+	// C06.scan and C06.numorder read off it; the entry point turns that into its own sign — the scan's answer when b is the
+	// shorter operand, its negation when a is (or when the lengths are equal). Any other operand order or sign reverses,
+	// or otherwise scrambles, the order of every pair the rows below cover.
+	rows := []struct {
+		key, name string
+		want      []string
+	}{
+		{"1,1,-1", "a shorter", []string{"-cPR(a,b)"}},
+		{"1,1,0", "equal lengths", []string{"-cPR(a,b)", "cPR(b,a)"}},
+		{"1,1,1", "b shorter", []string{"cPR(b,a)"}},
+	}
+	// a scan function that no longer carries the recorded name may have its two parameters the other way round
+	// (long, short): then the shorter operand sits in the second position in every row — the mirrored table, as a whole
+	if sf := scanFunc(e, rule); sf != nil && sf.Name() != "comparePreRelease" && t["1,1,-1"] == "-cPR(b,a)" {
+		rows[0].want, rows[1].want, rows[2].want = []string{"-cPR(b,a)"}, []string{"-cPR(b,a)", "cPR(a,b)"}, []string{"cPR(a,b)"}
+	}
+	for _, c := range rows {
+		ok := false
+		for _, w := range c.want {
+			if t[c.key] == w {
+				ok = true
+			}
+		}
+		if ok {
+			e.S.Ok(rule, site, "non-empty, "+c.name, "result "+t[c.key]+" (the scan on (shorter, longer), negated when a is the shorter operand)", "")
+		} else {
+			e.S.Bad(rule, site, "non-empty, "+c.name, fmt.Sprintf("result %s, expected %s: the scan's answer is given the wrong operands or the wrong sign, or something else decides", t[c.key], strings.Join(c.want, " or ")), "", "1.0.0-B vs 1.0.0-a")
 		}
 	}
 }
@@ -696,21 +730,31 @@ func ruleC06Scan(e *Env, rule string) {
 // scanFunc: the function that scans two pre-release texts: sem.comparePreRelease under its recorded name, or — renamed,
 // moved or no longer generic — the one function of the module that DefaultComparePreRelease calls with both operands.
 func scanFunc(e *Env, rule string) *ssa.Function {
-	if f := e.F("sem", "comparePreRelease"); f != nil {
-		return f
-	}
+	// what DefaultComparePreRelease actually calls with both operands decides (a function of the recorded name that is
+	// no longer called is dead code); two different scanning functions are not one algorithm
 	dcp := e.F("sem", "DefaultComparePreRelease")
 	if dcp != nil {
 		var found *ssa.Function
+		several := false
 		for _, call := range e.C.Calls(dcp, flow.InRepo) {
 			g := flow.Origin(e.C.StaticCallee(&call.Call))
-			if len(call.Call.Args) == 2 && len(g.Params) == 2 && (found == nil || found == g) {
+			if len(call.Call.Args) == 2 && len(g.Params) == 2 {
+				if found != nil && found != g {
+					several = true
+				}
 				found = g
 			}
+		}
+		if several {
+			e.S.Unk(rule, "sem.DefaultComparePreRelease", "anchor", "DefaultComparePreRelease hands its operands to more than one scanning function", e.Pos(dcp))
+			return nil
 		}
 		if found != nil {
 			return found
 		}
+	}
+	if f := e.F("sem", "comparePreRelease"); f != nil {
+		return f
 	}
 	e.S.Unk(rule, "sem.comparePreRelease", "anchor", "the scanning function is not found under its name nor as the one callee of DefaultComparePreRelease taking both operands", "")
 	return nil
